@@ -19,7 +19,7 @@ from vf.engine_xh import Part
 
 ROOT = os.path.dirname(os.path.dirname(os.path.abspath(__file__)))
 WORK = os.path.join(ROOT, ".work")
-REPLAYS = os.path.join(WORK, "replays")
+REPLAYS = os.environ.get("VERIF_REPLAY_DIR") or os.path.join(WORK, "replays")
 
 
 def _write_replay(pid, n, payload):
@@ -36,6 +36,10 @@ def do_replay(path):
     if data.get("engine", "xh") == "xh":
         part = Part(harness=data["harness"], params=data["params"], name=data.get("name", ""))
         out = engine_xh.replay_part(part, data["cex"])
+    elif data.get("engine") == "witness":
+        from vf import witness
+
+        out = witness.run_for_id(data["finding"]["id"])
     else:
         mod = importlib.import_module("vf.harness." + pid)
         out = mod.replay(data)
@@ -271,8 +275,9 @@ def main(argv=None):
         "wall_s": wall,
         "violations": len(violations),
     }
-    os.makedirs(os.path.join(ROOT, "evidence"), exist_ok=True)
-    with open(os.path.join(ROOT, "evidence", pid + ".json"), "w") as f:
+    evdir = os.environ.get("VERIF_EVIDENCE_DIR") or os.path.join(ROOT, "evidence")
+    os.makedirs(evdir, exist_ok=True)
+    with open(os.path.join(evdir, pid + ".json"), "w") as f:
         json.dump(evidence, f, indent=1, default=str)
 
     # ---- report
